@@ -1006,3 +1006,86 @@ def check_exit_code_tests(c: Check, rule: str, prefixes, floor: int, what: str) 
     if not bad:
         c.ok(rule, 'exit-code-tests', detail='%d comparisons of an exit code with a constant, all == / !=' % n)
     c.floor(rule, 'comparisons of an exit code with a constant', n, floor)
+
+
+# ------------------------------------------------------------------ SWALLOW: failures and zeroes that silently vanish
+
+# handlers that give "nothing" on purpose (read and confirmed), keyed by (module, function)
+SWALLOWING_HANDLERS_BY_DESIGN = {
+    ('exactly_lib.tcfs.path_relativity', 'rel_hds_from_rel_any'):
+        'enum conversion: None is the documented answer "not relative to a home directory"',
+    ('exactly_lib.tcfs.path_relativity', 'rel_sds_from_rel_any'):
+        'enum conversion: None is the documented answer "not relative to the sandbox"',
+    ('exactly_lib.impls.file_creation', '_create_file'):
+        'lstat failing means the file does not exist, which is what creation requires',
+    ('exactly_lib.impls.instructions.multi_phase.environ.impl', 'ModifierUnset.modify'):
+        'unset of a variable that is not set is a no-op by definition; the handler encloses the one deletion only',
+}
+
+
+def swallow_sites(ix: Index, modules):
+    """[(kind, relpath, line, module name, function qualname, text)]:
+    loop-swallow  - a `try` whose body contains a loop and whose handler does not raise: the failure of one element
+                    silently ends the loop, the following elements are never processed;
+    handler-none  - a handler that only passes or returns None (for the validators and resolvers of the repository
+                    None is "success" / "nothing to report"): the failure vanishes;
+    or-none       - `x or None`: zero, the empty text and the empty collection are turned into "absent"."""
+    out = []
+    for m in modules:
+        for x in ast.walk(m.tree):
+            f = m.enclosing_func(x) if isinstance(x, (ast.Try, ast.ExceptHandler, ast.BoolOp)) else None
+            qual = f.key.split(':')[-1] if f else '<module>'
+            if isinstance(x, ast.Try):
+                if any(isinstance(st_, (ast.For, ast.While)) for st_ in x.body):
+                    for h in x.handlers:
+                        if not any(isinstance(n, ast.Raise) for n in ast.walk(h)):
+                            out.append(('loop-swallow', m.relpath, x.lineno, m.name, qual, 'try around a loop'))
+            elif isinstance(x, ast.ExceptHandler):
+                body = [st_ for st_ in x.body if not (isinstance(st_, ast.Expr) and isinstance(st_.value, ast.Constant))]
+                only_pass = len(body) == 1 and isinstance(body[0], ast.Pass)
+                ret_none = [n for n in body if isinstance(n, ast.Return)
+                            and (n.value is None or (isinstance(n.value, ast.Constant) and n.value.value is None))]
+                if only_pass or ret_none:
+                    node = body[0] if only_pass else ret_none[0]
+                    out.append(('handler-none', m.relpath, node.lineno, m.name, qual,
+                                'except %s: %s' % (unparse(x.type) if x.type is not None else '<anything>',
+                                                   'pass' if only_pass else 'return None')))
+            elif isinstance(x, ast.BoolOp) and isinstance(x.op, ast.Or) and isinstance(x.values[-1], ast.Constant) \
+                    and x.values[-1].value is None:
+                out.append(('or-none', m.relpath, x.lineno, m.name, qual, unparse(x)))
+    return out
+
+
+def check_nothing_is_swallowed(c: Check, rule: str, prefixes, floor: int, what: str, kinds=('loop-swallow', 'handler-none', 'or-none')) -> None:
+    from ..report import VERIF_ROOT
+    import os
+    ix = c.ix
+    mods = [ix.module(n) for n in ix.all_module_names() if any(n == p_ or n.startswith(p_ + '.') for p_ in prefixes)]
+    n_bad = 0
+    for kind, relpath, line, mname, qual, text in swallow_sites(ix, mods):
+        if kind not in kinds:
+            continue
+        if kind == 'handler-none' and (mname, qual) in SWALLOWING_HANDLERS_BY_DESIGN:
+            c.ok(rule, 'swallow/by-design/%s:%s' % (mname, qual), detail=SWALLOWING_HANDLERS_BY_DESIGN[(mname, qual)])
+            continue
+        n_bad += 1
+        msg = {
+            'loop-swallow': 'a failure of one element is caught outside the loop and not raised again: the elements '
+                            'after it are silently not processed',
+            'handler-none': 'the failure is answered with "nothing" (%s), which the callers read as success' % text,
+            'or-none': '`%s` turns 0 / an empty text / an empty collection into "absent"' % text,
+        }[kind]
+        c.bad(rule, 'swallow/%s/%s:%s' % (kind, mname, qual), '%s (%s)' % (msg, what), '%s:%d' % (relpath, line))
+    if not n_bad:
+        c.ok(rule, 'swallow/none', detail='%d modules' % len(mods))
+    c.floor(rule, 'modules scanned for swallowed failures', len(mods), floor)
+    fx = Index(os.path.join(VERIF_ROOT, 'fixtures', 'evaluators'))
+    fm = fx.module('exactly_lib.impls.fixture_swallow')
+    got = sorted((k, l) for k, _, l, _, _, _ in swallow_sites(fx, [fm]))
+    want = []
+    for i, line in enumerate(fm.src.splitlines()):
+        for k in ('loop-swallow', 'handler-none', 'or-none'):
+            if '# EXPECT ' + k in line:
+                want.append((k, i + 1))
+    if got != sorted(want):
+        raise AnalysisError('%s: positive control of the swallow rules failed: %s, expected %s' % (rule, got, sorted(want)))
